@@ -9,6 +9,6 @@ def gen(ctx):
 
 def run(ctx):
     facts, ok = gen(ctx)
-    ctx.cov["gen_facts"] = {k: {"source": v[2], "expr": v[1]} for k, v in facts.items()}
+    ctx.cov["gen_facts"] = {k: {"source": v[2], "expr": v[1]} for k, v in facts.items() if not k.startswith("_")}
     ctx.prove(families=("processor",))
     proccommon.run_processor(ctx, "C01", "")
